@@ -28,6 +28,26 @@ def leaves(F, v, depth=0, seen=None):
     return out
 
 
+def ops_used(F, v, depth=0, seen=None):
+    seen = seen if seen is not None else set()
+    if v in seen or depth > 40 or re.match(r'^-?\d+$', v):
+        return set()
+    seen.add(v)
+    d = F.f.defs.get(v)
+    if d is None:
+        return set()
+    out = {d.op}
+    if d.op == 'load':
+        return out
+    if d.op == 'phi':
+        for x, _ in d.extra['incoming']:
+            out |= ops_used(F, x, depth + 1, seen)
+    else:
+        for o in d.ops:
+            out |= ops_used(F, o, depth + 1, seen)
+    return out
+
+
 def elem(F, ld):
     """(row offset polynomial in the pointer array, element offset polynomial) of a load / store through array[row][idx]"""
     ptr = ld.ops[0] if ld.op == 'load' else ld.ops[1]
@@ -82,6 +102,11 @@ def check(rep, floor):
                 if name not in got_out:
                     problems.append('no store of %s to array[%s] at element %s' % (name, pfmt(outs[name]), pfmt(dict(pos))))
                     continue
+                used = ops_used(F, got_out[name].ops[0]) - {'zext', 'sext', 'trunc', 'freeze'}
+                if name == 'P' and not used <= {'xor', 'phi', 'load'}:
+                    problems.append('P is not a plain xor of the source rows (operations used: %s)' % sorted(used))
+                if name == 'Q' and 'shl' not in used:
+                    problems.append('Q is computed without the multiply-by-2 step (no shift in its recurrence)')
                 ls = {elem(F, l) for l in leaves(F, got_out[name].ops[0])}
                 if ls != want:
                     problems.append('%s is computed from rows %s, expected %s' % (name, sorted((pfmt(dict(a)), pfmt(dict(b))) for a, b in ls if a is not None) if None not in ls else 'unrecognised loads',
@@ -93,11 +118,12 @@ def check(rep, floor):
             found = set()
             for c in cmps:
                 sides = [set(elem(F, l) for l in leaves(F, o)) if not re.match(r'^-?\d+$', o) else set() for o in c.ops]
-                for a, b in (sides, sides[::-1]):
+                useds = [ops_used(F, o) - {'zext', 'sext', 'trunc', 'freeze'} for o in c.ops]
+                for (a, b), (ua, ub) in ((sides, useds), (sides[::-1], useds[::-1])):
                     if fn == 'xor_check_base' and a == want and not b:
                         found.add('P')
                     for name, row in outs.items():
-                        if a == {(canon(row), pos)} and b == want:
+                        if a == {(canon(row), pos)} and b == want and ((name == 'P' and ub <= {'xor', 'phi', 'load'}) or (name == 'Q' and ('shl' in ub or 'select' in ub))):
                             found.add(name)
             need = set(outs) or {'P'}
             if found != need:
